@@ -121,6 +121,15 @@ func migrate(db *sql.DB) error {
 	}
 
 	if uv == latestVersion {
+		// the version says current: make sure the schema really is (e.g. the index was not
+		// lost), otherwise refuse instead of running on a partial schema
+		ok, err := schemaLooksLikeV1(db)
+		if err != nil {
+			return fmt.Errorf("inspecting schema: %w", err)
+		}
+		if !ok {
+			return fmt.Errorf("database user_version %d has unexpected partial sqlite schema", uv)
+		}
 		return nil
 	}
 
